@@ -63,7 +63,7 @@ def run(tier):
     W = 4 if quick else 5
     classes = workload_classes(k)
     seqs = A.generate(chk, "work", W, 1, len(classes), 1)
-    reps = 8 if quick else 24
+    reps = 8 if quick else 16
     # quick: every workload of <= W-1 blocks and a seeded sample of those with W blocks
     if quick:
         full = [s for s in seqs if len(s) < W]
@@ -80,14 +80,14 @@ def run(tier):
     rng = A.rng_for(chk, "c04")
     # long repetition of a sample (N = 200), biased towards workloads that make the heap trim
     big = [i for i in range(n_tlc) if classes[-1] in plans[i]["blocks"]]
-    for i in rng.sample(big, 24 if quick else 200) + rng.sample(range(n_tlc), 6 if quick else 100):
+    for i in rng.sample(big, 24 if quick else 100) + rng.sample(range(n_tlc), 6 if quick else 50):
         p = dict(plans[i])
         p.update({"reps": 200, "base": 100, "walk": False, "src": "tlc-workload-long", "os": rng.choice("bdd"), "rand_place": rng.random() < 0.3,
                   "seed": rng.randrange(1, 1 << 40)})
         plans.append(p)
     # boundary-size workloads (random multisets from the C03 alphabet), random placement
     sizes = A.boundary_sizes(k)
-    for i in range(150 if quick else 1500):
+    for i in range(150 if quick else 800):
         n = rng.randint(1, 6)
         blocks = [[max(1, rng.choice(sizes) + rng.choice([0, 1, -1])), rng.choice(A.ALIGNS)] for _ in range(n)]
         plans.append({"kind": "work", "blocks": blocks, "free": rng.choice(["fifo", "lifo", "inter"]), "reps": reps,
@@ -95,7 +95,7 @@ def run(tier):
                       "src": "boundary-workload"})
     # churn: allocations and frees interleave (this is where freed space must be reused)
     small = A.small_classes(k)
-    for i in range(40 if quick else 400):
+    for i in range(40 if quick else 250):
         plans.append({"kind": "churn", "seed": rng.randrange(1, 1 << 40), "period": rng.choice([40, 100, 200] if quick else [60, 150, 300]),
                       "slots": rng.choice([6, 16, 40]), "max": rng.choice([3000, 70000, 400000]), "reps": reps,
                       "base": reps // 2, "os": rng.choice("bad"), "rand_place": i % 2 == 1, "classes": small,
@@ -112,9 +112,9 @@ def run(tier):
     # concurrent demand and the allocation order, differs from repetition to repetition, so a
     # repetition is not a repetition of the same workload; Envelope, NoGratuitousMap, ReleaseOnce are)
     if not quick:
-        plans.append({"kind": "churn", "seed": rng.randrange(1, 1 << 40), "period": 5000, "slots": 64, "max": 300000,
+        plans.append({"kind": "churn", "seed": rng.randrange(1, 1 << 40), "period": 1000, "slots": 64, "max": 300000,
                       "reps": 200, "base": 100, "os": "b", "rand_place": True, "classes": small, "watchdog": 900,
-                      "src": "churn-1e6"})
+                      "src": "churn-2e5"})
 
     # debug build (assertions on) for the TLC workloads, release build for the rest;
     # processed in chunks so that memory stays bounded
